@@ -836,6 +836,12 @@ class Mailbox:
                 )
                 return
             except asyncio.CancelledError:
+                # The mailbox is being shut down (deleted.) A command we have
+                # already taken off of the queue is not in the queue for
+                # `shutdown()` to find: let it go (it checks `self.deleted`.)
+                #
+                if imap_cmd is not None and not imap_cmd.ready.is_set():
+                    imap_cmd.ready.set()
                 return
             except Exception as e:
                 # We ignore all other exceptions because otherwise the
